@@ -63,7 +63,18 @@ Section TieChance.
       repeat match goal with |- context [match pyidx ?l ?i with _ => _ end] => destruct (pyidx l i) end; reflexivity.
   Qed.
 
+  (* `if vweights is not None: return wnchoice(vvalues, vweights, rng=self.rng) else: return self.rng.choice(vvalues)`;
+     util.wnchoice and random.Random.choice themselves are the hand-written Chance.wnchoice / Chance.choice *)
+  Lemma PChoice_step_src values ws s g :
+    choice_step R r_unit r_below values ws s g = src_PChoice_step R r_unit r_below values ws s g.
+  Proof.
+    unfold choice_step, src_PChoice_step.
+    destruct ws as [w|]; [destruct (wnchoice R r_unit values w g) as [[v|] g'] | destruct (choice R r_below values g) as [[v|] g']]; reflexivity.
+  Qed.
+
   (** the machines with the source-generated step *)
+  Definition src_pchoice (values : list Z) (ws : option (list Q)) : machine R unit :=
+    mkMachine R unit tt (src_PChoice_step R r_unit r_below values ws).
   Definition src_white (is_f : bool) (mn mx : Q) (len : Z) : machine R Z := mkMachine R Z 0 (src_PWhite_step R r_unit is_f mn mx len).
   Definition src_coin (p : Q) : machine R unit := mkMachine R unit tt (src_PCoin_step R r_unit p).
   Definition src_flipflop (init : Z) (p_on p_off : Q) : machine R Z := mkMachine R Z init (src_PFlipFlop_step R r_unit p_on p_off).
@@ -108,6 +119,9 @@ Section SrcRuns.
   Lemma src_skip_run input play i ops :
     run R r_seed (src_skip R r_unit input play) i ops = run R r_seed (skip R r_unit input play) i ops.
   Proof. apply run_ext; [reflexivity|]. intros. symmetry. apply PSkip_step_src. Qed.
+  Lemma src_pchoice_run values ws i ops :
+    run R r_seed (src_pchoice R r_unit r_below values ws) i ops = run R r_seed (pchoice R r_unit r_below values ws) i ops.
+  Proof. apply run_ext; [reflexivity|]. intros. symmetry. apply PChoice_step_src. Qed.
   Lemma src_pshuffle_run values repeats i ops :
     run R r_seed (src_pshuffle R r_below values repeats) i ops = run R r_seed (pshuffle R r_below values repeats) i ops.
   Proof. apply run_ext; [reflexivity|]. intros. symmetry. apply PShuffle_step_src. Qed.
